@@ -140,5 +140,104 @@ where
 //@end
 }
 
+impl<T> Contains<Line<T>> for Line<T>
+where
+    T: GeoNum,
+{
+    /// T*****FF*: every point of `line` on self and the interiors meet -- for a non-degenerate `line` both its end
+    /// points on self; a degenerate `line` is a point, which must be in the interior of self
+    open spec fn holds(&self, line: &Line<T>) -> bool {
+        if pt(line.start) == pt(line.end) {
+            if pt(self.start) == pt(self.end) { pt(line.start) == pt(self.start) }
+            else { on_segment(pt(line.start), pt(self.start), pt(self.end)) && pt(line.start) != pt(self.start) && pt(line.start) != pt(self.end) }
+        } else {
+            on_segment(pt(line.start), pt(self.start), pt(self.end)) && on_segment(pt(line.end), pt(self.start), pt(self.end))
+        }
+    }
+//@fn geo/src/algorithm/contains/line.rs | impl<T> Contains<Line<T>> for Line<T> where T: GeoNum, | contains | id=C02.V.line_contains_line
+//@before 1 `if line.start == line.end {`
+        proof { T::ax_obeys(); T::ax_cmp(line.start.x, line.end.x); T::ax_cmp(line.start.y, line.end.y); }
+//@end
+}
+
+// ------------------------------------------------------------------ Rect x Line (closed rectangle vs closed segment)
+/// textbook segment test (as in the K oracle spec::seg_meet)
+pub open spec fn seg_meet(a: P2, b: P2, c: P2, d: P2) -> bool {
+    (orient_spec(a, b, c) != orient_spec(a, b, d) && orient_spec(c, d, a) != orient_spec(c, d, b))
+    || on_segment(c, a, b) || on_segment(d, a, b) || on_segment(a, c, d) || on_segment(b, c, d)
+}
+/// contract of `Line: Intersects<Line>` -- ASSUMED here (decided completely on the lattice by K harness c02_k_line_line)
+impl<T> Intersects<Line<T>> for Line<T>
+where
+    T: GeoNum,
+{
+    open spec fn meets(&self, line: &Line<T>) -> bool { seg_meet(pt(self.start), pt(self.end), pt(line.start), pt(line.end)) }
+    #[verifier::external_body]
+    fn intersects(&self, line: &Line<T>) -> (r: bool) { unimplemented!() }
+}
+impl<T: CoordNum> vstd::std_specs::convert::FromSpecImpl<(T, T)> for Coord<T> {
+    open spec fn obeys_from_spec() -> bool { false }
+    uninterp spec fn from_spec(v: (T, T)) -> Self;
+}
+impl<T: CoordNum> From<(T, T)> for Coord<T> {
+//@fn geo-types/src/geometry/coord.rs | impl<T: CoordNum> From<(T, T)> for Coord<T> | from | id=C18.V.coord_from_tuple | props=C18
+//@ret r
+//@spec
+    ensures r.x == coords.0, r.y == coords.1,
+//@end
+}
+impl<T: CoordNum> Line<T> {
+//@fn geo-types/src/geometry/line.rs | impl<T: CoordNum> Line<T> | new | id=C18.V.line_new | props=C18
+//@ret r
+//@spec
+    requires forall|c: C| call_requires(C::into, (c,)),
+    ensures call_ensures(C::into, (start,), r.start), call_ensures(C::into, (end,), r.end),
+//@end
+}
+
+impl<T> Intersects<Line<T>> for Rect<T>
+where
+    T: GeoNum,
+{
+    /// an end point in the closed rectangle, or the segment meets one of the four sides
+    open spec fn meets(&self, rhs: &Line<T>) -> bool {
+        let (mn, mx) = (pt(rmin(*self)), pt(rmax(*self)));
+        let (c1, c3) = (P2 { x: mx.x, y: mn.y }, P2 { x: mn.x, y: mx.y });
+        let (a, b) = (pt(rhs.start), pt(rhs.end));
+        (mn.x <= a.x && a.x <= mx.x && mn.y <= a.y && a.y <= mx.y) || (mn.x <= b.x && b.x <= mx.x && mn.y <= b.y && b.y <= mx.y)
+        || seg_meet(mn, c1, a, b) || seg_meet(c1, mx, a, b) || seg_meet(c3, mx, a, b) || seg_meet(mn, c3, a, b)
+    }
+//@fn geo/src/algorithm/intersects/rect.rs | impl<T> Intersects<Line<T>> for Rect<T> where T: GeoNum, | intersects | id=C02.V.rect_intersects_line
+//@end
+}
+
+// ------------------------------------------------------------------ Point as the container
+//@type geo-types/src/geometry/point.rs | Point
+impl<T: CoordNum> vstd::std_specs::cmp::PartialEqSpecImpl for Point<T> {
+    open spec fn obeys_eq_spec() -> bool { T::obeys_eq_spec() }
+    open spec fn eq_spec(&self, other: &Self) -> bool { self.0.x.eq_spec(&other.0.x) && self.0.y.eq_spec(&other.0.y) }
+}
+impl<T> Contains<Coord<T>> for Point<T>
+where
+    T: CoordNum,
+{
+    open spec fn holds(&self, coord: &Coord<T>) -> bool { pt(self.0) == pt(*coord) }
+//@fn geo/src/algorithm/contains/point.rs | impl<T> Contains<Coord<T>> for Point<T> where T: CoordNum, | contains | id=C02.V.point_contains_coord
+//@before 1 `&self.0 == coord`
+        proof { T::ax_obeys(); T::ax_cmp(self.0.x, coord.x); T::ax_cmp(self.0.y, coord.y); }
+//@end
+}
+impl<T> Contains<Line<T>> for Point<T>
+where
+    T: CoordNum,
+{
+    /// only a degenerate line (a point) can be inside a point
+    open spec fn holds(&self, line: &Line<T>) -> bool { pt(line.start) == pt(line.end) && pt(line.start) == pt(self.0) }
+//@fn geo/src/algorithm/contains/point.rs | impl<T> Contains<Line<T>> for Point<T> where T: CoordNum, | contains | id=C02.V.point_contains_line
+//@before 1 `if line.start == line.end {`
+        proof { T::ax_obeys(); T::ax_cmp(line.start.x, line.end.x); T::ax_cmp(line.start.y, line.end.y); T::ax_cmp(line.start.x, self.0.x); T::ax_cmp(line.start.y, self.0.y); }
+//@end
+}
+
 } // verus!
 fn main() {}
